@@ -132,7 +132,10 @@ int main(int argc, char **argv)
     setenv("RC_PARAMS", params.c_str(), 1);
     Verdict lastfail;
     Case lastcase;
+    bool stop_shrinking = false;
     bool r = rc::check(p->id, [&] {
+      if (stop_shrinking)
+        return; // every shrink candidate "passes": rapidcheck keeps the case as found
       if (ctx.over_budget())
       {
         ctx.stats.info["budget_exhausted"] = "generation cut short by the wall-clock budget";
@@ -152,6 +155,8 @@ int main(int argc, char **argv)
         lastfail = v;
         lastcase = c;
         write_replay(ctx, c, v, "gen"); // the last failing execution is the shrunk one
+        if (v.slow)
+          stop_shrinking = true;
         RC_FAIL(v.msg);
       }
     });
